@@ -9,7 +9,7 @@ step with an independent matrix model that has value semantics.
 import math
 
 from vf.runner import Violation, run_hypothesis
-from vf.matmodel import Model
+from vf.matmodel import Model, affine_strategy
 from vf import hist
 
 ID = "C13"
@@ -60,6 +60,10 @@ def op_strategy(depth=2):
         nv.map(lambda v: T("reflect", v)),
         st.sampled_from(["xy", "yz", "zx"]).map(lambda p: T("mirror", p)),
         st.tuples(c, c, c).map(lambda t: T("set_pivot", list(t))),
+        # the public escape hatch: any 4x4 matrix (shears are only reachable
+        # this way); a 3x3 matrix must be refused with ValueError
+        affine_strategy().map(lambda m: T("chain_transform", m)),
+        st.just(T("chain_transform", [[1.0, 0.0, 0.0], [0.0, 1.0, 0.0], [0.0, 0.0, 1.0]])),
     )
     state = st.one_of(
         st.just(T("save_state")), st.just(T("restore_state")),
@@ -166,7 +170,11 @@ class Runner:
             pivot_check = (q, (float(pre[0]), float(pre[1]), float(pre[2])))
         expect = m.apply_op(name, args)
         try:
-            getattr(t, name)(*args)
+            if name == "chain_transform":
+                self.cl.add("chain_transform")
+                t.chain_transform(__import__("numpy").array(args[0], dtype=float))
+            else:
+                getattr(t, name)(*args)
             exc = None
         except Exception as e:
             exc = e
@@ -177,7 +185,7 @@ class Runner:
             if not isinstance(exc, expect):
                 raise Violation(f"{call}: expected {expect.__name__}, got {exc!r}")
             self.cl.add("expected_" + expect.__name__)
-        if name in ("translate", "rotate", "scale", "reflect", "mirror"):
+        if name in ("translate", "rotate", "scale", "reflect", "mirror", "chain_transform"):
             self.geo_ops += 1
             for v in self.named_restores.values():
                 v[1] = True
